@@ -1,6 +1,7 @@
 package main
 
 import (
+	"encoding/json"
 	"flag"
 	"fmt"
 	"go/ast"
@@ -25,6 +26,7 @@ var checkers = map[string]func(r *Report){
 	"C14": checkC14,
 	"C18": checkC18,
 	"C19": checkC19,
+	"C15": checkC15,
 	"C16": checkC16,
 	"C17": checkC17,
 }
@@ -113,6 +115,55 @@ func main() {
 				}
 			}
 			fmt.Printf("%s:%d:%d\t%s\t%s\t%s\t%s\n", strings.TrimPrefix(s.file, repoRoot+"/"), s.line, s.col, s.kind, s.fn, s.expr, strings.Join(fs, " ; "))
+		}
+	case "explain":
+		if len(os.Args) < 3 {
+			usage()
+		}
+		b, err := os.ReadFile(os.Args[2])
+		if err != nil {
+			fatalf("%v", err)
+		}
+		var rep struct {
+			Property   string     `json:"property"`
+			Obligation Obligation `json:"obligation"`
+		}
+		if err := json.Unmarshal(b, &rep); err != nil {
+			fatalf("%s: %v", os.Args[2], err)
+		}
+		if len(os.Args) > 3 {
+			repoRoot = os.Args[3]
+		}
+		f := checkers[rep.Property]
+		if f == nil {
+			fatalf("no checker for property %q", rep.Property)
+		}
+		fmt.Printf("replaying %s rule %s on construct %q\n  recorded at %s: %s\n", rep.Property, rep.Obligation.Rule, rep.Obligation.Key, rep.Obligation.Pos, rep.Obligation.How)
+		r := newReport(rep.Property, "quick")
+		f(r)
+		for _, fl := range r.Floors {
+			if fl.Found < fl.Min {
+				r.bad(fl.Rule+"/FLOOR", "floor:"+fl.What, "", "below the reviewed minimum")
+			}
+		}
+		found := false
+		for _, o := range r.Obls {
+			if o.Rule == rep.Obligation.Rule && o.Key == rep.Obligation.Key {
+				found = true
+				if o.OK {
+					fmt.Printf("  now: holds (%s)\n", o.How)
+				} else {
+					fmt.Printf("  now: STILL VIOLATED at %s: %s\n", o.Pos, o.How)
+					for _, t := range o.Trace {
+						fmt.Printf("    via %s\n", t)
+					}
+					fmt.Printf("VIOLATION property=%s replay=%s\n", rep.Property, os.Args[2])
+					os.Exit(1)
+				}
+			}
+		}
+		if !found {
+			fmt.Println("  now: the construct no longer exists on this tree")
 		}
 	case "check":
 		fs := flag.NewFlagSet("check", flag.ExitOnError)
